@@ -1,5 +1,6 @@
 import PdfModel.Lemmas.Indirect
 import PdfModel.Lemmas.Sequence
+import PdfModel.Lemmas.Render
 
 /-!
   C03 — every spec-conformant spelling of an object parses to the value it denotes.
@@ -127,6 +128,29 @@ theorem parse_sequence_partial (env : Env R) (hd : env.decrypt = none) (items : 
     (hah : Ahead buf (pos + g0.length + (seqText items).length)) (hfuel : seqNeed items ≤ fuel) :
     parseSeq env buf fuel items.length pos = .ok (seqExpected (pos + g0.length) items) :=
   parseSeq_spells env hd items hsz g0 rest pos fuel hok hg0 hs hah hfuel
+
+/-- **The randomized printer is specification-conformant**: whatever the tape of random choices, the text
+    `Spec/Render.render` produces for a value is a conformant spelling of that value (so every rendering the
+    harness generates — the Rust twin is compared with this printer byte for byte on every case — lies in
+    the domain of the theorems above).  `Renderable`: 32-bit integers, object numbers within `u64`, no
+    stream below the top level, and for reals the third-party hypothesis that every variant text the
+    printer derives from `f32::to_string` is a real token that `f32::from_str` maps back to the same value. -/
+theorem printer_conformant (fmt : R → List UInt8) (pr : List UInt8 → Option R) (v : Prim R)
+    (h : PdfSpec.Renderable fmt pr v) (tape : List Nat) : Spells pr v (PdfSpec.render fmt v tape).1 :=
+  PdfSpec.render_spells fmt pr v h tape
+
+/-- the same for stream objects -/
+theorem printer_stream_conformant (fmt : R → List UInt8) (pr : List UInt8 → Option R) (info : Dict R) (data : List UInt8)
+    (h : PdfSpec.RenderableE fmt pr info) (tape : List Nat) :
+    SpellsStream pr info data (PdfSpec.render fmt (.stream info (.pending data)) tape).1 :=
+  PdfSpec.render_stream_spells fmt pr info data h tape
+
+/-- and for a value followed by a tail: the printer inserts a separator exactly where one is needed -/
+theorem printer_tail_conformant (fmt : R → List UInt8) (pr : List UInt8 → Option R) (v : Prim R) (tail : List UInt8)
+    (h : PdfSpec.Renderable fmt pr v) (tape : List Nat) :
+    ∃ txt g, (PdfSpec.renderWithTail fmt v tail tape).1 = txt ++ g ++ tail ∧ Spells pr v txt ∧ Gap g ∧
+      (needsBnd v = true → Bnd (g ++ tail)) :=
+  PdfSpec.renderWithTail_spec fmt pr v tail h tape
 
 /-- The full-strength statement: as `parse_spelling_partial` but for *all* names the syntax can spell
     (`/#ff` is a legal name), i.e. without `namesUtf8`. -/
